@@ -75,7 +75,7 @@ def cases(tier):
         es = gen.wide_joint(r, nc, no, n_events=3, pos=r.choice([0, 1, 2]))
         out.append((dict(gen.params(r), events=es, policy=r.choice(['error', 'dedup', 'keep']), stream='wide_joint',
                          n_jobs=r.choice([2, 4]), per_job=r.choice([7, 100, 1000]), per_file=r.choice([2, 10000000]),
-                         _timeout=300), LEARNERS[1:] if tier == 'quick' else LEARNERS))
+                         _timeout=300), LEARNERS if (tier != 'quick' and k == 0) else LEARNERS[1:]))
     # outside the property's quantifier (it starts at one event), run to keep the model honest where
     # the learners differ: an event file with ZERO events (model: ndlCall, theorems ndl_call_empty_*)
     for init in (False, True):
